@@ -27,7 +27,7 @@ SEEDED = os.path.join(VERIF, "seeded")
 
 
 def sh(cmd, cwd=None, timeout=3600, env=None):
-    p = subprocess.run(cmd, cwd=cwd, shell=isinstance(cmd, str), stdout=subprocess.PIPE, stderr=subprocess.STDOUT, text=True,
+    p = subprocess.run(cmd, cwd=cwd, shell=isinstance(cmd, str), stdout=subprocess.PIPE, stderr=subprocess.STDOUT, text=True, errors="replace",
                        timeout=timeout, env=env)
     return p.returncode, p.stdout
 
